@@ -53,6 +53,15 @@ func runCLI(bin, dir string, args []string, extraEnv []string) CLIResult {
 	var so, se bytes.Buffer
 	cmd.Stdout = &so
 	cmd.Stderr = &se
+	for _, e := range extraEnv {
+		if e == "HARNESS_STDOUT=/dev/full" {
+			// a standard output on which every write fails (a full disk behind a redirection)
+			if f, ferr := os.OpenFile("/dev/full", os.O_WRONLY, 0); ferr == nil {
+				defer f.Close()
+				cmd.Stdout = f
+			}
+		}
+	}
 	t0 := time.Now()
 	err := cmd.Run()
 	r := CLIResult{Stdout: so.String(), Stderr: se.String(), Elapsed: time.Since(t0).Seconds()}
